@@ -14,6 +14,12 @@
   by tools/tl2lean.py (SH/Gen/C14.lean, regenerated from the .tl files on every run) and the instance is tied to
   the generated Go by the correspondence harness (go/C14).
 
+  Dictionaries: `Dictionary t` is a vector of (key, value) constructors on the wire and in this model (and in the
+  []byte variants of the generated types). The string variants keep it in a Go map and write it sorted by key, a later
+  duplicate replacing an earlier one: the identity on every value a map can hold (FillRandom values, sorted unique
+  keys), a canonicalisation on other inputs. The correspondence compares such inputs (recognised on the Go side by
+  "re-encoding differs from the consumed input") on verdict and consumed length only.
+
   Not modelled: basictl.CheckLengthSanity (an early EOF error for vectors whose count cannot fit in the remaining
   bytes; it changes which error is returned and avoids a big allocation, never whether a read succeeds, as long as
   every element really occupies at least the declared minimum) and the "length > MaxInt" branch of the huge string
